@@ -35,6 +35,246 @@ def T_order(ctx, lib):
                    where=b.where(), expected=show(want_v), found=sorted(show(r) for r in rets))
 
 
+def cap_values(role):
+    """capture expressions of a closure (flow exprs over the parent's params) as symx symbols"""
+    from mirlib import flow
+    clo = role.call[3][role.arg_index]
+    out = []
+    for e in clo[2]:
+        if e[0] == "param":
+            out.append(("sym", "P%d" % e[1]))
+        elif e[0] == "field" and e[1][0] == "param":
+            out.append(("field", ("sym", "P%d" % e[1][1]), e[2]))
+        else:
+            out.append(("sym", "cap:" + flow.show(e)))
+    return out
+
+
+def R_impact(ctx, lib):
+    from mirlib import flow
+    from rules import kernel
+    from rules.kernel import deep_strip, strip, is_call, cond_val, int_of
+    rule = "C13.R-impact"
+    ctx.rule(rule, "passive_var_impact(v, ts) = |{t in ts : v in support(t)}|; active_var_impact(v, ts) = |{i < |ts| : Var(i) in support(ts[v])}| "
+                   "(fold templates: +1 exactly under the membership test, else unchanged; init 0; over all of ts / 0..len)")
+    for name in ("passive_var_impact", "active_var_impact"):
+        try:
+            b = lib.one("obdd::Bdd::" + name)
+        except LookupError as e:
+            ctx.lost(rule, name, str(e))
+            continue
+        roles, defs = flow.closure_roles(b)
+        folds = [r for r in roles.values() if r.adaptor == "fold"]
+        if len(folds) != 1:
+            ctx.cannot(rule, name + ".fold", "exactly one fold", b.where(), [r.adaptor for r in roles.values()])
+            continue
+        r = folds[0]
+        ret = defs.expr_local(0)
+        ctx.ob(rule, name + ".returns-fold", ret == r.call, where=b.where(), expected="the fold result is returned", found=flow.show(ret)[:160])
+        init = r.call[3][1]
+        ctx.ob(rule, name + ".init-0", flow.const_val(init) == 0, where=b.where(), expected="fold starts at 0", found=flow.show(init))
+        src, steps = r.receiver_chain()
+        if name == "passive_var_impact":
+            ok = src == ("param", 3) and [s_[0] for s_ in steps] == ["iter"]
+            ctx.ob(rule, name + ".range", ok, where=b.where(), expected="termlist.iter()", found="%s %s" % (flow.show(src), [s_[0] for s_ in steps]))
+        else:
+            rcv = r.receiver
+            ok = (rcv[0] == "adt" and rcv[1].endswith("ops::Range") and flow.const_val(dict(rcv[3])["start"]) == 0
+                  and dict(rcv[3])["end"][0] == "call" and flow.last(dict(rcv[3])["end"][2]) == "len" and dict(rcv[3])["end"][3][0] == ("param", 3))
+            ctx.ob(rule, name + ".range", ok, where=b.where(), expected="0..termlist.len()", found=flow.show(rcv)[:160])
+        cb = lib.body(r.closure_def)
+        eng = ctx.engine([lib], no_inline={"adf_bdd::obdd::Bdd::var_dependencies"})
+        st = symx.State()
+        caps = cap_values(r)
+        env = eng.closure_env(st, cb, caps)
+        ACC = ("sym", "acc")
+        if name == "passive_var_impact":
+            ITEM = shared.term_sym("item")
+            args = [env, ACC, shared.ref_to(st, ITEM)]
+        else:
+            ITEM = ("sym", "idx")
+            args = [env, ACC, ITEM]
+        paths = eng.summarise(cb, args, st)
+        n = 0
+        for p in paths:
+            if p.end != "return":
+                continue
+            n += 1
+            tests = [(deep_strip(e), v) for e, v in p.cond if is_call(deep_strip(e), "HashSet::contains")]
+            if len(tests) != 1:
+                ctx.cannot(rule, name + ".membership", "one membership test per item", cb.where(), p.describe()[:200])
+                continue
+            e, v = tests[0]
+            sset, elem = e[2][0], strip(e[2][1])
+            vd = symx.find_all(sset, lambda n_: is_call(n_, "Bdd::var_dependencies"))
+            if name == "passive_var_impact":
+                good = (len(vd) == 1 and strip(vd[0][2][-1]) == ITEM and elem == ("sym", "P2"))
+                exp = "var in support(item)"
+            else:
+                arg = deep_strip(vd[0][2][-1]) if len(vd) == 1 else None
+                good = (arg is not None and arg[0] == "index" and strip(arg[1]) == ("sym", "P3")
+                        and deep_strip(arg[2]) in (("field", ("sym", "P2"), "0"), ("sym", "P2"))
+                        and elem == shared.var_of(ITEM))
+                exp = "Var(idx) in support(termlist[var])"
+            ctx.ob(rule, name + ".membership", good, where=cb.where(), expected=exp, found=symx.show(e)[:200])
+            want = symx.lin_add(ACC, vint(1)) if int_of(v) == 1 else ACC
+            ctx.ob(rule, name + ".step[%s]" % ("in" if int_of(v) == 1 else "out"), p.ret == want, where=cb.where(),
+                   expected=symx.show(want), found=symx.show(p.ret))
+        ctx.floor(rule, name + " closure paths", n, 2)
+
+
+def flatten_vec(v):
+    """upd:push / upd:append nest over Vec::new() -> ordered list of ('push', elem) / ('append', src)"""
+    from mirlib import flow
+    from rules.kernel import strip
+    items = []
+    v = strip(v)
+    while v[0] == "app" and str(v[1]).startswith("upd:"):
+        op = flow.last(v[1][4:])
+        items.append((op, v[2][1] if len(v[2]) > 1 else None))
+        v = strip(v[2][0])
+    if not (v[0] == "app" and flow.fname(v[1]) == "Vec::new"):
+        return None
+    items.reverse()
+    return items
+
+
+def R_cubes(ctx, lib):
+    from mirlib import flow
+    from rules.kernel import deep_strip, strip, is_call
+    rule = "C13.R-cubes"
+    ctx.rule(rule, "one-level template of Bdd::interpretations over goal x (var = goal_var?) x class(hi) x class(lo): the hi branch is "
+                   "explored iff var != goal_var or goal, the lo branch iff var != goal_var or not goal; a terminal child contributes one "
+                   "cube iff it equals the goal; hi-branch cubes carry var positive, lo-branch cubes negative; non-terminal children are "
+                   "recursed with the extended cube; a terminal root yields nothing")
+    try:
+        b = lib.one("obdd::Bdd::interpretations")
+    except LookupError as e:
+        ctx.lost(rule, "interpretations", str(e))
+        return
+    eng = ctx.engine([lib], no_inline={b.path})
+    NEG, POS = ("sym", "neg"), ("sym", "pos")
+    n = 0
+    VARK = 3
+
+    def has(v, x):
+        return symx.contains(deep_strip(v), lambda n_: n_ == x)
+    varv = shared.var_of(vint(VARK))
+    for goal in (True, False):
+        for gvk in (3, 4):
+            for hic in shared.CLASSES:
+                for loc in shared.CLASSES:
+                    LOh = shared.term(loc) if loc != "U" else shared.term_sym("lo")
+                    HIh = shared.term(hic) if hic != "U" else shared.term_sym("hi")
+                    # undecided children are symbolic handles of class U: is_truth_value must be false for them
+                    node = mk_adt(shared.BDDNODE, "BddNode", [("var", varv), ("lo", shared.term(loc)), ("hi", shared.term(hic))])
+                    eng.index_hook = lambda e_, s_, base, idx, node=node: node if symx.contains(base, lambda n_: n_[0] == "field" and n_[2] == "nodes") else None
+                    st = symx.State()
+                    F = shared.term("U")
+                    args = [shared.ref_to(st, ("sym", "bdd")), F, symx.vbool(goal), shared.var_of(vint(gvk)),
+                            shared.ref_to(st, NEG), shared.ref_to(st, POS)]
+                    paths = eng.summarise(b, args, st)
+                    inst = "goal=%s,var%sgoal_var,hi=%s,lo=%s" % (str(goal).lower(), "=" if gvk == VARK else "!=", hic, loc)
+                    if len(paths) != 1 or paths[0].end != "return":
+                        ctx.cannot(rule, inst, "a single returning path in the finite domain", b.where(), [p.describe()[:160] for p in paths][:3])
+                        continue
+                    n += 1
+                    items = flatten_vec(paths[0].ret)
+                    if items is None:
+                        ctx.cannot(rule, inst, "result is a vector built by push/append", b.where(), show(paths[0].ret)[:200])
+                        continue
+                    expected = []
+                    if gvk != VARK or goal:
+                        if hic != "U":
+                            if (hic == "T") == goal:
+                                expected.append(("cube", "hi"))
+                        else:
+                            expected.append(("rec", "hi"))
+                    if gvk != VARK or not goal:
+                        if loc != "U":
+                            if (loc == "T") == goal:
+                                expected.append(("cube", "lo"))
+                        else:
+                            expected.append(("rec", "lo"))
+                    found = []
+                    why = None
+                    for op, x in items:
+                        x = deep_strip(x)
+                        if op == "push" and x[0] == "tuple" and len(x[1]) == 2:
+                            negc, posc = x[1]
+                            if has(negc, NEG) and has(posc, POS) and has(posc, varv) and not has(negc, varv) and not has(negc, POS) and not has(posc, NEG):
+                                found.append(("cube", "hi"))
+                            elif has(negc, NEG) and has(posc, POS) and has(negc, varv) and not has(posc, varv) and not has(negc, POS) and not has(posc, NEG):
+                                found.append(("cube", "lo"))
+                            else:
+                                found.append(("cube", "?"))
+                                why = "cube %s" % show(x)[:200]
+                        elif op == "append":
+                            recs = symx.find_all(x, lambda n_: is_call(n_, "Bdd::interpretations"))
+                            if len(recs) != 1:
+                                found.append(("append", "?"))
+                                why = "append of %s" % show(x)[:160]
+                                continue
+                            a = [deep_strip(z) for z in recs[0][2][1:]]
+                            child, g, gv, ng, ps = a
+                            okc = g == symx.vbool(goal) and gv == shared.var_of(vint(gvk))
+                            if child == shared.term(hic) and hic == "U" and has(ps, varv) and has(ps, POS) and not has(ng, varv) and has(ng, NEG) and okc and not (loc == "U" and False):
+                                found.append(("rec", "hi"))
+                            elif child == shared.term(loc) and loc == "U" and has(ng, varv) and has(ng, NEG) and not has(ps, varv) and has(ps, POS) and okc:
+                                found.append(("rec", "lo"))
+                            else:
+                                found.append(("rec", "?"))
+                                why = "recursion %s" % show(recs[0])[:240]
+                        else:
+                            found.append((op, "?"))
+                            why = "item %s %s" % (op, show(x)[:100])
+                    if hic == "U" and loc == "U":
+                        # both children undecided: the recursion arguments distinguish them through the cube extension only
+                        pass
+                    ctx.ob(rule, inst, found == expected, where=b.where(), expected=str(expected), found=why or str(found))
+    eng.index_hook = None
+    # terminal root
+    for c in ("B", "T"):
+        st = symx.State()
+        eng.index_hook = lambda e_, s_, base, idx: mk_adt(shared.BDDNODE, "BddNode", [("var", shared.var_of(vint(shared.VAR_TOP))), ("lo", shared.term(c)), ("hi", shared.term(c))])
+        args = [shared.ref_to(st, ("sym", "bdd")), shared.term(c), ("sym", "goal"), shared.var_of(("sym", "gv")),
+                shared.ref_to(st, NEG), shared.ref_to(st, POS)]
+        paths = eng.summarise(b, args, st)
+        ok = all(p.end == "return" and flatten_vec(p.ret) == [] for p in paths) and len(paths) >= 1
+        ctx.ob(rule, "terminal-root[%s]" % c, ok, where=b.where(), expected="empty result", found=[show(p.ret)[:80] if p.ret else p.end for p in paths])
+    eng.index_hook = None
+    ctx.floor(rule, "domain rows", n, 36)
+
+
+def I_range(ctx, lib):
+    rule = "C13.I-range"
+    ctx.rule(rule, "path and model counts grow as 2^depth with depth bounded only by the number of statements, so usize arithmetic on "
+                   "them (+, *, pow in Bdd::node, modelcount_naive, modelcount_memoization) must be overflow-safe (checked/saturating/"
+                   "wider type); plain usize +,*,pow is reported (debug builds panic, release builds wrap for >= 2^64 paths)")
+    sites = ["obdd::Bdd::modelcount_naive", "obdd::Bdd::modelcount_memoization"]
+    if "adhoccounting" in lib.features:
+        sites.append("obdd::Bdd::node")
+    for sfx in sites:
+        try:
+            b = lib.one(sfx)
+        except LookupError as e:
+            ctx.lost(rule, sfx, str(e))
+            continue
+        unsafe_ops = []
+        from mirlib import flow
+        d = flow.Defs(b)
+        for bb, i, s_ in b.statements():
+            if s_["k"] != "assign" or s_["rv"]["k"] != "binop":
+                continue
+            op = s_["rv"]["op"]
+            if op.replace("WithOverflow", "") not in ("Add", "Mul"):
+                continue
+            ops = [d.expr_operand(s_["rv"]["l"]), d.expr_operand(s_["rv"]["r"])]
+            if any(flow.find(e, lambda n_: n_[0] == "field" and n_[2] in ("cmodels", "models")) for e in ops):
+                unsafe_ops.append("%s at %s" % (op, b.where(s_.get("loc"))))
+        ctx.ob(rule, b.qual, not unsafe_ops, where=b.where(), expected="overflow-safe count arithmetic", found=unsafe_ops[:6])
+
+
 def check(ctx):
     from rules import counts
     for cfg in configs(ctx.tier):
@@ -43,3 +283,6 @@ def check(ctx):
         T_order(ctx, lib)
         counts.R_rec_counts(ctx, lib)
         counts.R_rec_support(ctx, lib)
+        R_impact(ctx, lib)
+        R_cubes(ctx, lib)
+        I_range(ctx, lib)
